@@ -454,8 +454,11 @@ def cache_signatures(inference_state, context, bracket_leaf, code_lines, user_po
     before_bracket = re.match(r'.*\(', whole, re.DOTALL)
 
     module_path = context.get_root_context().py__file__()
-    if module_path is None:
-        yield None  # Don't cache!
+    if module_path is None or before_bracket is None:
+        # Don't cache! Without a match (the cursor is on a later line than the
+        # bracket) the key would only consist of the path and the position of
+        # the bracket, which stay the same while the code around them changes.
+        yield None
     else:
         yield (module_path, before_bracket, bracket_leaf.start_pos)
     yield infer(
